@@ -140,10 +140,15 @@ impl<'a, 'py> pyo3::FromPyObject<'a, 'py> for FieldValue {
                 }
             };
             if let Some(first) = first_non_null {
-                let expected = std::mem::discriminant(first);
+                // Python has a single `int` type: both integer representations are the same type.
+                let kind = |v: &FieldValue| match v {
+                    FieldValue::Uint64(_) => std::mem::discriminant(&FieldValue::Int64(0)),
+                    other => std::mem::discriminant(other),
+                };
+                let expected = kind(first);
                 for other in iter {
                     if !other.is_null() {
-                        let next_discriminant = std::mem::discriminant(other);
+                        let next_discriminant = kind(other);
                         if expected != next_discriminant {
                             let first_type = first.python_type_name();
                             let other_type = other.python_type_name();
